@@ -74,12 +74,20 @@ def main(tier, seed):
         fn = d.DISTANCES[name]
         dom = T.domain(name)
         claims = T.claims(name)
+        import metric_ref as _mr
+        signed_too = dom == "pos" and _mr.DOMAIN.get(name) == "real"
 
         def f(a, b):
             return float(fn(a, b))
         for r in range(reps):
             n = 1 if r % 7 == 0 else rng.randint(2, 7)
             long_vec = (r % 10 == 9)
+            if signed_too and r % 10 == 4:
+                # the closed form (and the code, through fabs) is defined on signed vectors for this identifier: mean-centred /
+                # z-scored features are in its domain although the table's user-level class is "non-negative"
+                dom = "real"
+            else:
+                dom = T.domain(name)
             if long_vec:
                 # long feature vectors (deep / histogram features): running sums and products over hundreds of coordinates
                 n = rng.choice([33, 64, 130, 154, 260, 1030])
